@@ -665,7 +665,14 @@ def run_scenario(case: dict, choices: List[int]) -> _Run:
             old = S3.DelayedS3Writer(_mpu_cls()(BUCKET, KEY), kw)
             ctx.vars[old._build_name("MPUpload")] = "abandoned-upload-id"
         mpu = _mpu_cls()(BUCKET, KEY)
-        if mode != "local" and case.get("explicit_client", True):
+        late = bool(case.get("late_client")) and mode != "local"
+        if late:
+            # history: the writer (the graph) is built before the cluster exists, so nothing prepared the shared
+            # variable; the workers that later run it do have a client and must still elect one initiator
+            the_client, ctx.client = ctx.client, None
+            w0 = mpu.writer(kw)
+            ctx.client = the_client
+        elif mode != "local" and case.get("explicit_client", True):
             w0 = mpu.writer(kw, client=ctx.client)
         else:
             w0 = mpu.writer(kw)
@@ -848,8 +855,9 @@ def s_sched(draw):
     else:
         runs = draw(st.lists(st.tuples(st.integers(0, 5), st.integers(1, 8)), max_size=14))
         choices = [c for c, n in runs for _ in range(n)]
+    stale = mode != "local" and draw(st.integers(0, 3)) == 0
     return {"mode": mode, "share": share, "writes": writes, "fin": fin, "explicit_client": explicit, "choices": choices,
-            "stale": mode != "local" and draw(st.integers(0, 3)) == 0}
+            "stale": stale, "late_client": mode != "local" and not stale and draw(st.integers(0, 3)) == 0}
 
 
 def o_sched(case, T):
@@ -860,6 +868,8 @@ def o_sched(case, T):
     T.cls("mode_" + case["mode"])
     if case.get("stale"):
         T.cls("stale_shared_variable_from_abandoned_upload")
+    if case.get("late_client") and case["mode"] != "local":
+        T.cls("writer_built_before_the_client_existed")
     T.cls("workers_%d" % len(case["share"]))
     T.cls("fin_none" if case["fin"] < 0 else ("fin_fresh" if case["fin"] >= len(case["share"]) else "fin_worker"))
 
@@ -870,6 +880,7 @@ DFS_SETUPS = [  # measured size of the complete tree on the repaired code: 5180,
     {"mode": "local", "share": [0, 0], "writes": [1, 1], "fin": 2, "explicit_client": True},
     {"mode": "cluster", "share": [0, 1], "writes": [1, 1], "fin": 2, "explicit_client": True},
     {"mode": "cluster_shared", "share": [0, 0], "writes": [1, 1], "fin": 2, "explicit_client": False},
+    {"mode": "cluster", "share": [0, 1], "writes": [1, 1], "fin": 2, "explicit_client": True, "late_client": True},
 ]
 DFS_SETUPS_THOROUGH = DFS_SETUPS + [  # 61050, 482, 964 schedules
     {"mode": "local", "share": [0, 0], "writes": [2, 1], "fin": 0, "explicit_client": True},
